@@ -153,6 +153,12 @@ type world struct {
 	cands map[hrKey][]*candidate // acceptable candidates (index = k), own proposals appended
 	bads  map[hrKey][]*candidate // unacceptable proposals created so far
 
+	// certified: per height the first block for which some round held more than 2/3 precommit power
+	// (the block every honest validator is then locked on), and the round of that certificate
+	certified map[uint64]string
+	certRound map[uint64]uint32
+	reprop    map[hrKey]*candidate  // the certified block re-proposed in a later round
+	twoBlocks bool                  // a second certificate for a different block of the same height appeared (needs >= 1/3 faulty power)
 	committed map[uint64]*candidate // block the network committed per height
 	commitRnd map[uint64]uint32
 
@@ -278,6 +284,7 @@ func newWorld(cfg smCfg) *world {
 		vals:      map[uint64]*valInfo{},
 		cands:     map[hrKey][]*candidate{},
 		bads:      map[hrKey][]*candidate{},
+		certified: map[uint64]string{}, certRound: map[uint64]uint32{}, reprop: map[hrKey]*candidate{},
 		committed: map[uint64]*candidate{},
 		commitRnd: map[uint64]uint32{},
 		epoch:     -1,
@@ -435,6 +442,48 @@ func (w *world) cand(h uint64, r uint32, k int, prevCommit tmconsensus.CommitPro
 		w.cands[key] = append(w.cands[key], w.makeCand(h, r, fmt.Sprintf("d-%d-%d-%d", h, r, i), 0, prevCommit))
 	}
 	return w.cands[key][k]
+}
+
+// reproposal: in a round after the one that certified a block, honest proposers re-propose that
+// block (same header, same hash; new round and signature). Returns nil when there is none.
+func (w *world) reproposal(h uint64, r uint32) *candidate {
+	hash, ok := w.certified[h]
+	if !ok || w.certRound[h] >= r {
+		return nil
+	}
+	key := hrKey{h, r}
+	if c := w.reprop[key]; c != nil && c.hash == hash {
+		return c
+	}
+	var orig *candidate
+	for k, cs := range w.cands {
+		if k.H != h {
+			continue
+		}
+		for _, c := range cs {
+			if c.hash == hash {
+				orig = c
+			}
+		}
+	}
+	if orig == nil {
+		return nil
+	}
+	prop := w.otherProposer(h, int(r))
+	if prop < 0 {
+		return nil
+	}
+	ph := orig.ph
+	ph.Round = r
+	ph.ProposerPubKey = w.fx.PrivVals[prop].Val.PubKey
+	sc, err := tmconsensus.ProposalSignBytes(ph.Header, ph.Round, ph.Annotations, w.fx.SignatureScheme)
+	if err != nil {
+		panic(err)
+	}
+	ph.Signature = w.sig(prop, sc)
+	c := &candidate{ph: ph, hash: hash, ok: orig.ok}
+	w.reprop[key] = c
+	return c
 }
 
 func (w *world) otherProposer(h uint64, salt int) int {
